@@ -1,6 +1,7 @@
 package eng
 
 import (
+	"encoding/json"
 	"fmt"
 	"os"
 	"os/exec"
@@ -8,6 +9,7 @@ import (
 	"regexp"
 	"sort"
 	"strings"
+	"sync"
 )
 
 // overlayFromPatch applies a unified diff to copies of the files it touches and
@@ -51,76 +53,178 @@ func overlayFromPatch(patch string) (map[string][]byte, error) {
 	return ov, nil
 }
 
-// Selftest runs the must-fail corpus: every mutant must make the check of its
-// property report a violation. Usage: gvc selftest [property...]
-func Selftest(args []string) int {
-	root := filepath.Join(VerifDir, "selftest", "mutants")
-	dirs, _ := filepath.Glob(filepath.Join(root, "*"))
-	sort.Strings(dirs)
-	want := map[string]bool{}
-	for _, a := range args {
-		want[a] = true
+// A corpus entry: a patch that must make the check of its property report a violation.
+type corpusEntry struct {
+	ID, Patch, Kind string
+}
+
+type corpusResult struct {
+	Property string   `json:"property"`
+	Kind     string   `json:"kind"` // mutant | seeded
+	Patch    string   `json:"patch"`
+	Killed   bool     `json:"killed"`
+	Error    string   `json:"error,omitempty"`
+	KilledBy []string `json:"killed_by,omitempty"`
+}
+
+// runPatch runs the quick check of property id on the tree with the patch applied
+// (in memory for library properties, in a scratch copy for the generator properties).
+func runPatch(id, p string) (int, []string, error) {
+	if plans[id].Gen {
+		// generator properties need the patched tree on disk (the plugin is built from it)
+		cp, err := os.MkdirTemp("", "gvcrepo")
+		if err != nil {
+			return 0, nil, err
+		}
+		defer os.RemoveAll(cp)
+		out, cerr := exec.Command("rsync", "-a", "--exclude", ".git", RepoDir+"/", cp+"/").CombinedOutput()
+		if cerr == nil {
+			out, cerr = exec.Command("patch", "-p1", "-s", "-f", "-d", cp, "-i", p).CombinedOutput()
+		}
+		if cerr != nil {
+			return 0, nil, fmt.Errorf("%v: %s", cerr, out)
+		}
+		save := RepoDir
+		RepoDir = cp
+		v, failed := runCheck(id, "quick", 0, nil, true)
+		RepoDir = save
+		return v, failed, nil
 	}
-	killed, total := 0, 0
-	var survivors []string
-	for _, d := range dirs {
-		id := filepath.Base(d)
-		if len(want) > 0 && !want[id] {
-			continue
-		}
-		if _, ok := plans[id]; !ok {
-			continue
-		}
-		patches, _ := filepath.Glob(filepath.Join(d, "*.patch"))
-		sort.Strings(patches)
-		for _, p := range patches {
-			total++
-			if plans[id].Gen {
-				// generator properties need the patched tree on disk (the plugin is built from it)
-				cp, err := os.MkdirTemp("", "gvcrepo")
-				if err == nil {
-					out, cerr := exec.Command("rsync", "-a", "--exclude", ".git", RepoDir+"/", cp+"/").CombinedOutput()
-					if cerr == nil {
-						out, cerr = exec.Command("patch", "-p1", "-s", "-f", "-d", cp, "-i", p).CombinedOutput()
-					}
-					if cerr != nil {
-						fmt.Printf("%-6s %-40s PATCH-ERROR %s\n", id, filepath.Base(p), out)
-						survivors = append(survivors, p)
-						os.RemoveAll(cp)
-						continue
-					}
-					save := RepoDir
-					RepoDir = cp
-					v, failed := runCheck(id, "quick", 0, nil, true)
-					RepoDir = save
-					os.RemoveAll(cp)
-					if v > 0 {
-						killed++
-						fmt.Printf("%-6s %-40s killed by %s\n", id, filepath.Base(p), strings.Join(firstN(failed, 2), " | "))
-					} else {
-						survivors = append(survivors, p)
-						fmt.Printf("%-6s %-40s SURVIVED\n", id, filepath.Base(p))
-					}
-					continue
-				}
-			}
-			ov, err := overlayFromPatch(p)
+	ov, err := overlayFromPatch(p)
+	if err != nil {
+		return 0, nil, err
+	}
+	v, failed := runCheck(id, "quick", 0, ov, true)
+	return v, failed, nil
+}
+
+// Selftest runs the must-fail corpus: every mutant in selftest/mutants and every
+// confirmed seeded change in seeded/ must make the check of its property report a
+// violation. Usage: gvc selftest [-j N] [-mutants|-seeds] [property...]
+func Selftest(args []string) int {
+	jobs := 4
+	kinds := map[string]bool{"mutant": true, "seeded": true}
+	want := map[string]bool{}
+	for i := 0; i < len(args); i++ {
+		switch a := args[i]; {
+		case a == "-one" && i+2 < len(args):
+			// worker: one patch, one JSON line on stdout
+			id, p := args[i+1], args[i+2]
+			r := corpusResult{Property: id, Patch: p}
+			stdout := os.Stdout
+			os.Stdout, _ = os.Open(os.DevNull)
+			v, failed, err := runPatch(id, p)
+			os.Stdout = stdout
 			if err != nil {
-				fmt.Printf("%-6s %-40s PATCH-ERROR %v\n", id, filepath.Base(p), err)
-				survivors = append(survivors, p)
+				r.Error = err.Error()
+			}
+			r.Killed = v > 0
+			r.KilledBy = firstN(failed, 6)
+			b, _ := json.Marshal(r)
+			fmt.Printf("RESULT %s\n", b)
+			return 0
+		case a == "-j" && i+1 < len(args):
+			fmt.Sscan(args[i+1], &jobs)
+			i++
+		case a == "-mutants":
+			kinds["seeded"] = false
+		case a == "-seeds":
+			kinds["mutant"] = false
+		default:
+			want[a] = true
+		}
+	}
+	var entries []corpusEntry
+	if kinds["mutant"] {
+		dirs, _ := filepath.Glob(filepath.Join(VerifDir, "selftest", "mutants", "*"))
+		sort.Strings(dirs)
+		for _, d := range dirs {
+			id := filepath.Base(d)
+			if _, ok := plans[id]; !ok || (len(want) > 0 && !want[id]) {
 				continue
 			}
-			v, failed := runCheck(id, "quick", 0, ov, true)
-			if v > 0 {
-				killed++
-				fmt.Printf("%-6s %-40s killed by %s\n", id, filepath.Base(p), strings.Join(firstN(failed, 2), " | "))
-			} else {
-				survivors = append(survivors, p)
-				fmt.Printf("%-6s %-40s SURVIVED\n", id, filepath.Base(p))
+			patches, _ := filepath.Glob(filepath.Join(d, "*.patch"))
+			sort.Strings(patches)
+			for _, p := range patches {
+				entries = append(entries, corpusEntry{id, p, "mutant"})
 			}
 		}
 	}
-	fmt.Printf("selftest: %d/%d mutants killed\n", killed, total)
+	if kinds["seeded"] {
+		dirs, _ := filepath.Glob(filepath.Join(VerifDir, "seeded", "*", "patch.diff"))
+		sort.Strings(dirs)
+		for _, p := range dirs {
+			n := filepath.Base(filepath.Dir(p))
+			id := strings.SplitN(n, "-", 2)[0]
+			if _, ok := plans[id]; !ok || (len(want) > 0 && !want[id]) {
+				continue
+			}
+			entries = append(entries, corpusEntry{id, p, "seeded"})
+		}
+	}
+	results := make([]corpusResult, len(entries))
+	self, _ := os.Executable()
+	var wg sync.WaitGroup
+	sem := make(chan struct{}, jobs)
+	var mu sync.Mutex
+	for i, e := range entries {
+		wg.Add(1)
+		sem <- struct{}{}
+		go func(i int, e corpusEntry) {
+			defer wg.Done()
+			defer func() { <-sem }()
+			r := corpusResult{Property: e.ID, Kind: e.Kind, Patch: e.Patch}
+			out, err := exec.Command(self, "selftest", "-one", e.ID, e.Patch).CombinedOutput()
+			found := false
+			for _, l := range strings.Split(string(out), "\n") {
+				if strings.HasPrefix(l, "RESULT ") {
+					json.Unmarshal([]byte(strings.TrimPrefix(l, "RESULT ")), &r)
+					r.Kind = e.Kind
+					found = true
+				}
+			}
+			if !found {
+				r.Error = fmt.Sprintf("worker failed: %v: %s", err, truncate(string(out), 400))
+			}
+			name := filepath.Base(e.Patch)
+			if e.Kind == "seeded" {
+				name = "seeded/" + filepath.Base(filepath.Dir(e.Patch))
+			}
+			mu.Lock()
+			switch {
+			case r.Error != "":
+				fmt.Printf("%-6s %-48s PATCH-ERROR %s\n", e.ID, name, r.Error)
+			case r.Killed:
+				fmt.Printf("%-6s %-48s killed by %s\n", e.ID, name, strings.Join(firstN(r.KilledBy, 2), " | "))
+			default:
+				fmt.Printf("%-6s %-48s SURVIVED\n", e.ID, name)
+			}
+			mu.Unlock()
+			results[i] = r
+		}(i, e)
+	}
+	wg.Wait()
+	killed := 0
+	var survivors []string
+	for _, r := range results {
+		if r.Killed && r.Error == "" {
+			killed++
+		} else {
+			survivors = append(survivors, r.Patch)
+		}
+	}
+	for i := range results {
+		results[i].Patch = strings.TrimPrefix(results[i].Patch, VerifDir+"/")
+	}
+	rep := "report-last.json"
+	if len(want) == 0 && kinds["mutant"] && kinds["seeded"] {
+		rep = "report.json"
+	}
+	writeJSON(filepath.Join(VerifDir, "selftest", rep), map[string]interface{}{"total": len(results), "killed": killed, "results": results})
+	fmt.Printf("selftest: %d/%d killed (report: selftest/%s)\n", killed, len(results), rep)
+	for _, s := range survivors {
+		fmt.Println("  not killed:", s)
+	}
 	if len(survivors) > 0 {
 		return 1
 	}
